@@ -28,7 +28,7 @@ fn walk_direct(threads: &str, slow_every: usize, slow_us: u64, root: &std::path:
     let mut count = 0usize;
     let verdict;
     loop {
-        match rx.recv_timeout(std::time::Duration::from_secs(30)) {
+        match rx.recv_timeout(std::time::Duration::from_secs(15)) {
             Ok(Ok(e)) => {
                 count += 1;
                 let p = e.dir_entry.path();
